@@ -147,6 +147,9 @@ def run(
   m = re.search(r"Error: Invariant (\w+) is violated", out)
   if m:
     res.ok, res.violated = False, m.group(1)
+  m = re.search(r"Error: The invariant of (\w+) is equal to FALSE", out)  # constant-level invariant (trace validation specs)
+  if m:
+    res.ok, res.violated = False, m.group(1)
   m = re.search(r"Error: Action property (\w+) is violated", out)
   if m:
     res.ok, res.violated = False, m.group(1)
